@@ -46,7 +46,7 @@ const uint64_t kBudgetOut = 3u << 20;       // bytes handed to send() per case (
 const uint64_t kBudgetIn = 3u << 19;        // bytes written by the peers per case
 const size_t kMaxOne = (1u << 20) + 4096;   // one send / one peer write
 const int kMaxDrainPasses = 60000;
-const int kTcpKernelWaitMs = 8000;          // see kernel_holds_bytes()
+const int kTcpKernelWaitMs = 3000;          // real-time budget per case for TCP bytes in flight; see kernel_holds_bytes() and tcp_kernel_stall_inconclusive
 
 // the liveness half of "send-complete" (it does fire once everything accepted was written) is pinned by the unit tests
 // BufferedFd.sendComplete_LittleData / _HugeData; the statement itself only has the "fires only when" half
@@ -335,18 +335,33 @@ struct Engine {
     c.acc_at_last_sc = acc;
     if (c.prd >= 0 && !c.peer_closed && !c.tbox_gone && !c.bound) {
       bool drain = sc_mode == 0;
-      if (c.inet && (drain || c.tfd < 0)) {            // loopback TCP: what was written is not instantly readable by the peer; wait for it (bounded, real time)
-        drain = true;
-        for (int waited = 0; c.out_got + inq(c.prd) < acc && waited < (kernel_holds_bytes(c) ? kTcpKernelWaitMs : 1000) && inet_waited_ms < kTcpKernelWaitMs; waited += 5) { peer_read(c, SIZE_MAX); struct pollfd pf = {c.prd, POLLIN, 0}; ::poll(&pf, 1, 5); inet_waited_ms += 5; }
-      } else if (c.inet) {
-        // without touching the peer: read by the peer + waiting in its receive queue <= accepted <= that + the tbox socket's send queue
-        // (TIOCOUTQ counts unacknowledged bytes, which may already sit in the peer's queue, so only the bounds are exact)
+      if (c.inet && c.tfd >= 0) {
+        // Loopback TCP, measured at the moment of the notification and without waiting: bytes accepted by write() sit in the send queue
+        // of the tbox socket until the peer's window lets them through, so "written to the descriptor" is
+        //   read by the peer + waiting in its receive queue <= accepted <= that + TIOCOUTQ of the tbox socket
+        // (TIOCOUTQ counts unacknowledged bytes, which may already sit in the peer's queue, so only the bounds are exact).
+        // How fast the kernel moves the rest to the peer (small windows stall on zero-window probes for seconds) is not tbox's doing.
         int outq = 0; if (ioctl(c.tfd, TIOCOUTQ, &outq) != 0 || outq < 0) outq = 0;
         uint64_t lo = c.out_got + inq(c.prd);
+        if (getenv("C06_DEBUG")) fprintf(stderr, "C06_DEBUG send-complete %d on conn %d: accepted %llu, peer read %llu, peer FIONREAD %llu, tbox TIOCOUTQ %d\n", c.sc_calls, c.idx, (unsigned long long)acc, (unsigned long long)c.out_got, (unsigned long long)(lo - c.out_got), outq);
         if (lo > acc || lo + (uint64_t)outq < acc)
           fail(tag(c) + "send-complete notification " + std::to_string(c.sc_calls) + " fired when " + std::to_string(acc) + " bytes had been accepted by send(), but the peer read " + std::to_string(c.out_got) + ", " + std::to_string(lo - c.out_got) + " wait in its receive queue and " + std::to_string(outq) + " in the connection's send queue");
+        if (drain) {       // the drain variant lets the peer catch up with what has arrived (as on the synchronous transports), briefly
+          peer_read(c, SIZE_MAX);
+          if (c.out_got < acc) { struct pollfd pf = {c.prd, POLLIN, 0}; ::poll(&pf, 1, 5); inet_waited_ms += 5; peer_read(c, SIZE_MAX); }
+        }
         run_acts(c, 2);
         return;
+      }
+      if (c.inet) {            // tbox socket not identified (rare): only the peer can be asked; wait (bounded, real time) for the bytes in flight
+        drain = true;
+        for (int waited = 0; c.out_got + inq(c.prd) < acc && waited < kTcpKernelWaitMs && inet_waited_ms < kTcpKernelWaitMs; waited += 5) { peer_read(c, SIZE_MAX); struct pollfd pf = {c.prd, POLLIN, 0}; ::poll(&pf, 1, 5); inet_waited_ms += 5; }
+        peer_read(c, SIZE_MAX);
+        if (c.out_got < acc && !c.peer_rd_err && !c.peer_eof && tcp_state(c.prd) == 1 /* TCP_ESTABLISHED */) {   // cannot be told apart from a kernel stall without the tbox socket
+          stats().counters["tcp_kernel_still_delivering_at_end"]++; info.cls("tcp_kernel_stall_inconclusive");
+          run_acts(c, 2);
+          return;
+        }
       }
       uint64_t seen;
       if (drain) { peer_read(c, SIZE_MAX); seen = c.out_got; } else seen = c.out_got + inq(c.prd);
